@@ -350,6 +350,17 @@ pub fn run(tier: Tier, seed: u64) -> i32 {
                         variants.push(("c':holder_of_another_position".into(), bank.clone(), with_signer(&g.ix, a.slot, other_user).with_key(token_slot, other_pos_token), false));
                         // (f) token account of another position, slot keeps the genuine owner
                         variants.push(("f:token_account_of_another_position".into(), bank.clone(), g.ix.clone().with_key(token_slot, other_pos_token), false));
+                        // (g) the holder moved the position token to somebody else's account and signs with the old,
+                        //     now empty, account (same owner, same mint, amount 0) - and pays from the same funding accounts
+                        if let Some(ta) = tok_acct.as_ref() {
+                            let mut bk = bank.clone();
+                            let mut a = ta.clone();
+                            if a.data.len() >= 72 {
+                                a.data[64..72].copy_from_slice(&0u64.to_le_bytes());
+                                bk.set(tok, a);
+                                variants.push(("g:holder_moved_the_token_away".into(), bk, g.ix.clone(), false));
+                            }
+                        }
                         // (e) an account of the position mint that holds 0 tokens
                         if let Some(mint) = mint {
                             let mut w2 = World::new(crate::rnd::rng(seed ^ 0xE));
